@@ -6,6 +6,7 @@ package proxy
 // route.NewTable, and judges the response it receives exactly as in the handler-level harness.
 
 import (
+	"crypto/tls"
 	"bytes"
 	"encoding/json"
 	"fmt"
@@ -23,6 +24,7 @@ import (
 	"github.com/fabiolb/fabio/config"
 	"github.com/fabiolb/fabio/internal/verifx"
 	"github.com/fabiolb/fabio/route"
+	"github.com/fabiolb/fabio/transport"
 )
 
 func TestVerifC17Proxy(t *testing.T) {
@@ -32,19 +34,33 @@ func TestVerifC17Proxy(t *testing.T) {
 		atomic.AddInt64(&plumbing, 1)
 		verifx.Emit(map[string]any{"kind": "oracle", "msg": fmt.Sprintf(format, a...)})
 	}
-	up := httptest.NewUnstartedServer(http.HandlerFunc(func(w http.ResponseWriter, r *http.Request) {
+	upstream := http.HandlerFunc(func(w http.ResponseWriter, r *http.Request) {
 		v, ok := sessions.Load(r.Header.Get("X-C17-Session"))
 		if !ok {
 			http.Error(w, "no session", 599)
 			return
 		}
-		v.(*verifx.C17Plan).Serve(w, nil)
-	}))
+		p := v.(*verifx.C17Plan)
+		if p.HasOp("hj") {
+			w = verifx.C17NoHijack{ResponseWriter: w}
+		}
+		p.Serve(w, nil)
+	})
+	up := httptest.NewUnstartedServer(upstream)
 	up.Config.ErrorLog = log.New(io.Discard, "", 0)
 	up.Start()
 	defer up.Close()
+	upTLS := httptest.NewUnstartedServer(upstream)
+	upTLS.Config.ErrorLog = log.New(io.Discard, "", 0)
+	upTLS.StartTLS()
+	defer upTLS.Close()
 
-	tbl, err := route.NewTable(bytes.NewBufferString("route add c17 / " + up.URL + "/"))
+	// three routes = the three transports of the proxy: the default one, the insecure one (tlsskipverify=true) and
+	// the target's own one (proto=https host=<name>, built by route.addTarget)
+	prefix := map[string]string{"default": "/d/", "insecure": "/i/", "target": "/t/", "": "/d/"}
+	tbl, err := route.NewTable(bytes.NewBufferString("route add c17d /d/ " + up.URL + "/\n" +
+		"route add c17i /i/ " + upTLS.URL + "/ opts \"tlsskipverify=true\"\n" +
+		"route add c17t /t/ " + upTLS.URL + "/ opts \"proto=https host=c17.test tlsskipverify=true\"\n"))
 	if err != nil {
 		t.Fatal(err)
 	}
@@ -52,7 +68,9 @@ func TestVerifC17Proxy(t *testing.T) {
 	var panics sync.Map // session id -> panic of the proxy's handler chain (other than a passed-on abort)
 	fabio := &HTTPProxy{
 		Config:    config.Proxy{GZIPContentTypes: regexp.MustCompile(verifx.C17ContentTypes)},
-		Transport: &http.Transport{DisableCompression: true, MaxIdleConnsPerHost: 64},
+		// the transports main.newHTTPProxy gives the proxy
+		Transport:         transport.NewTransport(nil),
+		InsecureTransport: transport.NewTransport(&tls.Config{InsecureSkipVerify: true}),
 		Lookup: func(r *http.Request) *route.Target {
 			return tbl.Lookup(r, "", route.Picker["rr"], route.Matcher["prefix"], gc, true)
 		},
@@ -100,9 +118,10 @@ func TestVerifC17Proxy(t *testing.T) {
 						continue
 					}
 					p := verifx.C17MakePlan(&b, i, n, true)
+					p.ViaProxy = true
 					id := fmt.Sprintf("p%d", atomic.AddInt64(&seq, 1))
 					sessions.Store(id, p)
-					req, _ := http.NewRequest(p.Method, px.URL+"/"+id, nil)
+					req, _ := http.NewRequest(p.Method, px.URL+prefix[p.H.Req.Via]+id, nil)
 					req.Header.Set("X-C17-Session", id)
 					p.SetRequest(req)
 					resp, err := client.Do(req)
